@@ -42,6 +42,15 @@ def make_wl(rng, k):
             opts["read_group"] = "tag_default"      # '--read_group tag' = RG
         if spec["group_tag"] == "HP":
             spec["group_naming"] = 4                # integer-typed tag values (HP:i:1)
+    if k is not None and k % 8 in (0, 5):
+        # killed while the second stage works through the chromosomes, resumed by a process with another string hash seed
+        opts["force_fault"] = {"kind": "kill", "stage": "construct", "frac": [0.5, 0.7, 0.85][(k // 8) % 3], "phase": "after",
+                               "resume_hashseed": 3 + k % 4}
+        spec["n_chr"] = max(3, spec.get("n_chr", 3))
+        spec["groups"] = max(3, spec["groups"])
+    if k is not None and mode == "file" and k % 8 == 2:
+        # killed while the read group table is being split into per-chromosome tables, then resumed
+        opts["force_fault"] = {"kind": "kill", "stage": "setup", "label_rx": r":open:w:.*read_group_<chr>$", "nth": -1, "phase": "after"}
     opts["annotated"] = True
     strats = ["unique_only", "with_ambiguous", "unique_splicing_consistent", "unique_inconsistent", "all"]
     opts["transcript_quant"] = strats[i % 5]
